@@ -218,3 +218,277 @@ Section Phase1.
         assert (i = j) by (apply J3; auto; try congruence; try lia; apply F; auto; lia). lia.
   Qed.
 End Phase1.
+
+(* ------------------------------------------------------------------ phase 2 (filter) under any interleaving *)
+(* the redo keys: those whose slot is marked in [c], in input order *)
+Definition redo_spec (c : bv) (keys : list key) (slots : list nat) : list key :=
+  map fst (filter (fun ks => bget c (snd ks)) (combine keys slots)).
+
+Lemma collect_spec c : forall keys slots ps, length slots = length keys -> length ps = length keys ->
+  (forall i, i < length keys -> nth i ps Qnone = if bget c (nth i slots 0) then Qsome else Qnone) ->
+  collect keys ps = redo_spec c keys slots.
+Proof.
+  unfold redo_spec. induction keys as [|k keys IH]; intros slots ps Ls Lp H; [reflexivity|].
+  destruct slots as [|s slots]; [discriminate|]. destruct ps as [|p ps]; [discriminate|].
+  cbn [combine filter collect snd]. cbn in Ls, Lp.
+  pose proof (H 0 ltac:(cbn; lia)) as H0. cbn in H0. subst p.
+  assert (T : collect keys ps = map fst (filter (fun ks => bget c (snd ks)) (combine keys slots))).
+  { apply IH; try lia. intros i Hi. apply (H (S i)). cbn; lia. }
+  destruct (bget c s); cbn [map fst]; rewrite T; reflexivity.
+Qed.
+
+Section Phase2.
+  Variable slots : list nat.
+  Variable size : nat.
+  Variable c a0 : bv.
+  Hypothesis slots_lt : forall i, i < length slots -> slot slots i < size.
+  Hypothesis a0_len : length a0 = size.
+  Let n := length slots.
+  Notation pcn st i := (nth i (pcs2 st) Qnone).
+  Notation sl i := (slot slots i).
+
+  Definition Inv2 (st : st2) : Prop :=
+    length (pcs2 st) = n /\ length (sa2 st) = size /\
+    (forall i, i < n -> pcn st i = Qsome -> bget (sa2 st) (sl i) = false) /\
+    (forall i, i < n -> pcn st i = Q1 \/ pcn st i = Qsome -> bget c (sl i) = true) /\
+    (forall i, i < n -> pcn st i = Qnone -> bget c (sl i) = false) /\
+    (forall s, bget (sa2 st) s = bget a0 s \/ (bget (sa2 st) s = false /\ exists i, i < n /\ sl i = s /\ pcn st i = Qsome)).
+
+  Lemma Inv2_init : Inv2 (init2 n a0).
+  Proof.
+    unfold Inv2, init2; cbn [pcs2 sa2]. rewrite repeat_length. repeat split; auto.
+    - intros i Hi. rewrite nth_repeat_if. apply Nat.ltb_lt in Hi. rewrite Hi. discriminate.
+    - intros i Hi. rewrite nth_repeat_if. apply Nat.ltb_lt in Hi. rewrite Hi. intros [?|?]; discriminate.
+    - intros i Hi. rewrite nth_repeat_if. apply Nat.ltb_lt in Hi. rewrite Hi. discriminate.
+  Qed.
+
+  Ltac pcr2 Lp Hi := rewrite ?nth_lset by (rewrite Lp; exact Hi).
+
+  Lemma Inv2_step st st' : step2 slots c st st' -> Inv2 st -> Inv2 st'.
+  Proof.
+    intros S (Lp & La & K2 & K3 & K4 & K5).
+    destruct S as [st i Hi Hpc | st i Hi Hpc]; unfold Inv2; cbn [pcs2 sa2];
+      rewrite ?lset_length, ?bset_length; (split; [auto|]); (split; [auto|]); fold n in Hi.
+    - (* read collide (final, not stale: after the join) *)
+      repeat split.
+      + intros j Hj. pcr2 Lp Hi. destruct (j =? i) eqn:E; [|auto].
+        destruct (bget c (sl i)); discriminate.
+      + intros j Hj. pcr2 Lp Hi. destruct (j =? i) eqn:E; [|auto].
+        apply Nat.eqb_eq in E; subst j. destruct (bget c (sl i)); auto. intros [?|?]; discriminate.
+      + intros j Hj. pcr2 Lp Hi. destruct (j =? i) eqn:E; [|auto].
+        apply Nat.eqb_eq in E; subst j. destruct (bget c (sl i)); auto. discriminate.
+      + intros s. destruct (K5 s) as [H|(H & w & Hw & Ew & Pw)]; [left; auto|right].
+        split; auto. exists w. repeat split; auto. pcr2 Lp Hi.
+        destruct (w =? i) eqn:E; auto. apply Nat.eqb_eq in E; subst w. congruence.
+    - (* fetch_and a *)
+      assert (Hs : sl i < length (sa2 st)) by (rewrite La; apply slots_lt; auto).
+      repeat split.
+      + intros j Hj. rewrite bget_bset by auto. destruct (sl j =? sl i) eqn:E; auto.
+        pcr2 Lp Hi. destruct (j =? i) eqn:E2; [|auto].
+        apply Nat.eqb_eq in E2; subst j. rewrite Nat.eqb_refl in E; discriminate.
+      + intros j Hj. pcr2 Lp Hi. destruct (j =? i) eqn:E; [|auto].
+        apply Nat.eqb_eq in E; subst j. intros _. apply K3; auto.
+      + intros j Hj. pcr2 Lp Hi. destruct (j =? i) eqn:E; [discriminate|auto].
+      + intros s. rewrite bget_bset by auto. destruct (s =? sl i) eqn:E.
+        * apply Nat.eqb_eq in E; subst s. right. split; auto. exists i. repeat split; auto.
+          pcr2 Lp Hi. rewrite Nat.eqb_refl; reflexivity.
+        * destruct (K5 s) as [H|(H & w & Hw & Ew & Pw)]; [left; auto|right].
+          split; auto. exists w. repeat split; auto. pcr2 Lp Hi.
+          destruct (w =? i) eqn:E2; auto.
+  Qed.
+
+  Lemma Inv2_reach st : clos_refl_trans _ (step2 slots c) (init2 n a0) st -> Inv2 st.
+  Proof.
+    intros R. apply clos_rt_rtn1 in R. induction R as [|y z S R IH]; [apply Inv2_init|].
+    eapply Inv2_step; eauto.
+  Qed.
+
+  Theorem phase2_final st : clos_refl_trans _ (step2 slots c) (init2 n a0) st -> done2 slots st ->
+    sa2 st = map (fun s => bget a0 s && negb (bget c s && (1 <=? cnt s slots))) (seq 0 size) /\
+    forall keys, length keys = n -> collect keys (pcs2 st) = redo_spec c keys slots.
+  Proof.
+    intros R D. destruct (Inv2_reach st R) as (Lp & La & K2 & K3 & K4 & K5).
+    assert (F : forall i, i < n -> pcn st i = if bget c (sl i) then Qsome else Qnone).
+    { intros i Hi. specialize (D i Hi). destruct (pcn st i) eqn:P; cbn in D; try discriminate.
+      - rewrite K4; auto.
+      - rewrite K3; auto. }
+    split.
+    - apply bv_ext; auto. intros s Hs.
+      destruct (bget c s && (1 <=? cnt s slots)) eqn:E.
+      + apply andb_prop in E. destruct E as [C E]. apply Nat.leb_le in E.
+        destruct (cnt_ge1 _ _ E) as (i & Hi & Ei). subst s. change (nth i slots 0) with (sl i) in *.
+        rewrite andb_false_r. apply K2; auto. rewrite F, C; auto.
+      + rewrite andb_true_r. destruct (K5 s) as [H|(H & w & Hw & Ew & Pw)]; auto.
+        exfalso. subst s. rewrite K3 in E; auto. rewrite andb_true_l in E. apply Nat.leb_gt in E.
+        pose proof (idx_cnt_ge1 (sl w) slots w Hw eq_refl). lia.
+    - intros keys Lk. apply collect_spec; try lia. intros i Hi. apply F. lia.
+  Qed.
+End Phase2.
+
+(* ------------------------------------------------------------------ the serial level computes the same function of the slot counts *)
+Lemma cnt_snoc s p s0 : cnt s (p ++ [s0]) = cnt s p + (if s =? s0 then 1 else 0).
+Proof.
+  unfold cnt. rewrite count_occ_app. cbn. destruct (Nat.eq_dec s0 s), (Nat.eqb_spec s s0); subst; auto; congruence.
+Qed.
+Lemma cnt_cons' s s0 p : cnt s (s0 :: p) = (if s =? s0 then 1 else 0) + cnt s p.
+Proof. rewrite cnt_cons. destruct (Nat.eq_dec s0 s), (Nat.eqb_spec s s0); subst; auto; congruence. Qed.
+
+Ltac leb_solve :=
+  repeat match goal with
+         | H : (_ <=? _) = true |- _ => apply Nat.leb_le in H
+         | H : (_ <=? _) = false |- _ => apply Nat.leb_gt in H
+         | H : (_ =? _) = true |- _ => apply Nat.eqb_eq in H
+         | H : (_ =? _) = false |- _ => apply Nat.eqb_neq in H
+         end;
+  repeat match goal with
+         | |- context [?a =? ?b] => destruct (Nat.eqb_spec a b); subst
+         end;
+  repeat match goal with
+         | |- context [?a <=? ?b] => destruct (Nat.leb_spec a b)
+         end; try reflexivity; try lia; try congruence.
+
+Section Serial.
+  Variable size : nat.
+  Definition Aof (p : list nat) : bv := map (fun s => 1 <=? cnt s p) (seq 0 size).
+  Definition Cof (p : list nat) : bv := map (fun s => 2 <=? cnt s p) (seq 0 size).
+  Lemma Aof_length p : length (Aof p) = size. Proof. unfold Aof. rewrite map_length, seq_length; auto. Qed.
+  Lemma Cof_length p : length (Cof p) = size. Proof. unfold Cof. rewrite map_length, seq_length; auto. Qed.
+  Lemma bget_Aof p s : s < size -> bget (Aof p) s = (1 <=? cnt s p).
+  Proof. intros. unfold bget, Aof. apply (nth_map_seq (fun s => 1 <=? cnt s p)); auto. Qed.
+  Lemma bget_Cof p s : s < size -> bget (Cof p) s = (2 <=? cnt s p).
+  Proof. intros. unfold bget, Cof. apply (nth_map_seq (fun s => 2 <=? cnt s p)); auto. Qed.
+  Lemma bnew_Aof : bnew size = Aof []. 
+  Proof. apply bv_ext; [apply repeat_length|]. intros. apply bget_bnew. Qed.
+  Lemma bnew_Cof : bnew size = Cof [].
+  Proof. apply bv_ext; [apply repeat_length|]. intros. apply bget_bnew. Qed.
+
+  Lemma fc_sync_spec p s0 : s0 < size -> fc_sync (Aof p, Cof p) s0 = (Aof (p ++ [s0]), Cof (p ++ [s0])).
+  Proof.
+    intros H0. unfold fc_sync. rewrite bget_Cof, bget_Aof by auto.
+    destruct (2 <=? cnt s0 p) eqn:E2; [|destruct (1 <=? cnt s0 p) eqn:E1]; f_equal;
+      apply bv_ext; rewrite ?bset_length, ?Aof_length, ?Cof_length; auto; intros s Hs;
+      rewrite ?bget_bset by (rewrite ?Aof_length, ?Cof_length; auto);
+      rewrite ?bget_Aof, ?bget_Cof by auto; rewrite cnt_snoc; leb_solve.
+  Qed.
+
+  Lemma fold_fc_sync l : Forall (fun s => s < size) l -> forall p,
+    fold_left fc_sync l (Aof p, Cof p) = (Aof (p ++ l), Cof (p ++ l)).
+  Proof.
+    induction 1 as [|s0 l H0 _ IH]; intros p; cbn [fold_left]; [rewrite app_nil_r; auto|].
+    rewrite fc_sync_spec by auto. rewrite IH, <- app_assoc. reflexivity.
+  Qed.
+
+  Lemma phase1_serial slots : Forall (fun s => s < size) slots ->
+    fold_left fc_sync slots (bnew size, bnew size) = (Aof slots, Cof slots).
+  Proof. intros H. rewrite bnew_Aof at 1. rewrite bnew_Cof. apply (fold_fc_sync slots H []). Qed.
+
+  (* filter, serially *)
+  Lemma filter_sync_spec c : forall keys slots a, length slots = length keys -> length a = size ->
+    Forall (fun s => s < size) slots ->
+    filter_sync c a (combine keys slots) =
+      (map (fun s => bget a s && negb (bget c s && (1 <=? cnt s slots))) (seq 0 size), redo_spec c keys slots).
+  Proof.
+    unfold redo_spec.
+    induction keys as [|k keys IH]; intros slots a Ls La F.
+    - destruct slots; [|discriminate]. cbn. f_equal. apply bv_ext; auto. intros s Hs.
+      unfold cnt; cbn. rewrite andb_false_r, andb_true_r. reflexivity.
+    - destruct slots as [|s0 slots]; [discriminate|]. inversion F as [|? ? H0 F']; subst.
+      cbn [combine filter_sync filter snd]. cbn in Ls.
+      destruct (bget c s0) eqn:C0.
+      + rewrite IH by (rewrite ?bset_length; auto). cbn [map fst]. f_equal.
+        apply map_ext_in. intros s Hs. apply in_seq in Hs.
+        rewrite bget_bset by lia. rewrite cnt_cons'.
+        destruct (s =? s0) eqn:E; [apply Nat.eqb_eq in E; subst; rewrite C0; cbn; rewrite andb_false_r; reflexivity|].
+        reflexivity.
+      + rewrite IH by auto. f_equal. apply map_ext_in. intros s Hs. rewrite cnt_cons'.
+        destruct (s =? s0) eqn:E; [apply Nat.eqb_eq in E; subst; rewrite C0; cbn; reflexivity|].
+        reflexivity.
+  Qed.
+End Serial.
+
+(* ------------------------------------------------------------------ levels, the loop, the whole MPHF *)
+Section MphfProofs.
+  Variable h : nat -> nat -> key -> nat.
+  Variable sz : nat -> nat.
+  Hypothesis h_lt : forall iter n k, h iter (sz n) k < sz n.      (* fastmod / % : a slot is below the level size *)
+
+  (* what one level computes, in terms of the number of keys per slot only *)
+  Definition level_spec (iter : nat) (keys : list key) : bv * list key :=
+    let slots := level_slots h sz iter keys in
+    (map (fun s => cnt s slots =? 1) (seq 0 (sz (length keys))),
+     map fst (filter (fun ks => 2 <=? cnt (snd ks) slots) (combine keys slots))).
+
+  Lemma slots_length iter keys : length (level_slots h sz iter keys) = length keys.
+  Proof. apply map_length. Qed.
+  Lemma slots_range iter keys : Forall (fun s => s < sz (length keys)) (level_slots h sz iter keys).
+  Proof. apply Forall_forall. intros s H. apply in_map_iff in H. destruct H as (k & <- & _). apply h_lt. Qed.
+  Lemma slots_lt iter keys i : i < length (level_slots h sz iter keys) ->
+    slot (level_slots h sz iter keys) i < sz (length keys).
+  Proof.
+    intros H. pose proof (slots_range iter keys) as F. rewrite Forall_forall in F. apply F. apply nth_In; auto.
+  Qed.
+
+  Lemma spec_of_counts iter keys :
+    let slots := level_slots h sz iter keys in let size := sz (length keys) in
+    (map (fun s => bget (Aof size slots) s && negb (bget (Cof size slots) s && (1 <=? cnt s slots))) (seq 0 size),
+     redo_spec (Cof size slots) keys slots) = level_spec iter keys.
+  Proof.
+    intros slots size. unfold level_spec. fold slots. fold size. f_equal.
+    - apply map_ext_in. intros s Hs. apply in_seq in Hs. rewrite bget_Aof, bget_Cof by lia.
+      destruct (cnt s slots) as [|[|m]]; reflexivity.
+    - unfold redo_spec. f_equal. apply filter_ext_in. intros (k, s) Hin. cbn [snd].
+      apply in_combine_r in Hin. apply bget_Cof.
+      pose proof (slots_range iter keys) as F. rewrite Forall_forall in F. apply F; auto.
+  Qed.
+
+  Lemma level_serial_spec iter keys : level_serial h sz iter keys = level_spec iter keys.
+  Proof.
+    unfold level_serial. rewrite (phase1_serial (sz (length keys))) by apply slots_range.
+    rewrite (filter_sync_spec (sz (length keys)));
+      [apply spec_of_counts|apply slots_length|apply Aof_length|apply slots_range].
+  Qed.
+
+  Lemma level_par_spec iter keys a redo : level_par h sz iter keys a redo -> (a, redo) = level_spec iter keys.
+  Proof.
+    intros [s1 s2 R1 D1 R2 D2].
+    assert (R1' : clos_refl_trans _ (step1 (level_slots h sz iter keys))
+                    (init1 (length (level_slots h sz iter keys)) (sz (length keys))) s1)
+      by (rewrite slots_length; exact R1).
+    assert (R2' : clos_refl_trans _ (step2 (level_slots h sz iter keys) (sc s1))
+                    (init2 (length (level_slots h sz iter keys)) (sa s1)) s2)
+      by (rewrite slots_length; exact R2).
+    clear R1 R2. rename R1' into R1. rename R2' into R2.
+    destruct (phase1_final _ _ (slots_lt iter keys) _ R1 D1) as (EA & EC).
+    assert (La : length (sa s1) = sz (length keys)) by (rewrite EA, map_length, seq_length; auto).
+    destruct (phase2_final _ _ _ _ (slots_lt iter keys) La _ R2 D2) as (E2 & Er).
+    rewrite E2, (Er keys) by (symmetry; apply slots_length). rewrite EA, EC. apply spec_of_counts.
+  Qed.
+
+  (* one level: every schedule of both phases gives the bit vector and the redo list of the serial code *)
+  Theorem level_par_eq_serial iter keys a redo :
+    level_par h sz iter keys a redo -> (a, redo) = level_serial h sz iter keys.
+  Proof. intros H. rewrite level_serial_spec. apply level_par_spec; auto. Qed.
+
+  Lemma loop_par_eq fuel iter redo res : loop_par h sz fuel iter redo res -> res = mphf_loop h sz fuel iter redo.
+  Proof.
+    induction 1 as [fuel iter|iter k r|fuel iter k r a redo res L _ IH]; cbn [mphf_loop]; auto.
+    - destruct fuel; reflexivity.
+    - rewrite <- (level_par_eq_serial _ _ _ _ L). rewrite IH. reflexivity.
+  Qed.
+
+  Theorem mphf_par_eq keys r : mphf_par h sz keys r -> r = mphf_new h sz keys.
+  Proof.
+    intros [a redo res L Lp]. unfold mphf_new. rewrite <- (level_par_eq_serial _ _ _ _ L).
+    rewrite (loop_par_eq _ _ _ _ Lp). reflexivity.
+  Qed.
+
+  Theorem bhm_par_eq {V} keys (vals : list V) r : bhm_new_par h sz keys vals r -> r = bhm_new h sz keys vals.
+  Proof. intros [m M]. unfold bhm_new. rewrite (mphf_par_eq _ _ M). reflexivity. Qed.
+
+  Theorem finish_par_eq K g r : finish_par h sz K g r -> r = finish_serial h sz K g.
+  Proof.
+    unfold finish_serial.
+    intros [L | l L R | l r' L R]; apply bhm_par_eq in L; try apply bhm_par_eq in R;
+      rewrite <- L; try rewrite <- R; reflexivity.
+  Qed.
+End MphfProofs.
